@@ -5,14 +5,27 @@ PAST=1000000000
 
 class Inspections(PipelineBase):
     name='C08.inspections'
-    def __init__(self,ninsp=1,two_steps=False,**kw):
-        PipelineBase.__init__(self,**kw); self.ninsp=ninsp; self.two_steps=two_steps
+    def __init__(self,ninsp=1,two_steps=False,history=False,**kw):
+        PipelineBase.__init__(self,**kw); self.ninsp=ninsp; self.two_steps=two_steps; self.history=history
         if two_steps: self.name='C08.inspections_after_two_steps'
+        if history: self.name='C08.inspections_after_a_failed_verification'
         self.bounds={'layout':('2 steps (the second always in order)' if two_steps else '1 step')+' (threshold 1, one functionary), %d inspection(s)'%ninsp,
                      'failure_knobs':'owner signature validity free; layout expired or not; step link absent/present with free signature validity; step rules: none / DISALLOW * on products / REQUIRE of an absent material / MATCH against the not-yet-existing link of the inspection followed by DISALLOW *',
                      'inspection_run':'stub returns Err, or a link without exit status (what runlib records for an empty command; counts as not having exited successfully), or a link with any i32 exit status, products {} or {x}, under inspection rules none / DISALLOW * on products',
                      'hash_map_iteration':'every permutation'}
         self.witnesses=['ok_all_pass','err_before_inspection_no_events','err_inspection_rule','ran_inspection']
+    def entry(self,eng):
+        if not self.history: return self.entry_body
+        body=self.entry_body
+        def go(run,args):
+            aA,aB=args
+            # an earlier verification in the same process that fails INSIDE a sub-layout (the deepest point a failure can unwind from);
+            # whatever it leaves behind (statics, thread-locals) is there when the verification under test starts
+            try: eng.call_fn(run,body,aA)
+            except Panic: pass
+            run.ghost['events']=[]; run.ghost['stage']=[]
+            return eng.call_fn(run,body,aB)
+        return go
     def inspection_result(self,run,name,a):
         g=run.ghost['insp'][name]
         if g['fail']: return err(self.b.variant('Error','RunLibError',[mk_string('spawn failed',True)]))
@@ -58,12 +71,25 @@ class Inspections(PipelineBase):
             steps.append(StepD('s1',1,[F0])); dirs[()].append(FileD('s1',F0,BlockD('link',LinkD('s1',{'a':[1]},{'b':[2]}),[SigD(F0,F0)])))
         lay=LayoutD([F0],steps,insps,expires=PAST if expired else FAR_FUTURE)
         lb=BlockD('layout',lay,[osig]); caller=[(OWN,OWN)]
+        prior=None
+        if self.history:
+            innerA=LayoutD([],[],expires=PAST)
+            dirsA={():[FileD('d',F0,BlockD('layout',innerA,[SigD(F0,F0)]))],(('d',F0),):[]}
+            lbA=BlockD('layout',LayoutD([F0],[StepD('d',1,[F0])]),[SigD(OWN,OWN)])
+            self.link_dir='linksA'; aA=self.install(run,lbA,caller if False else [(OWN,OWN)],dirsA); dA=dict(run.ghost['dirs']); self.link_dir='links'
+            prior=conc_scenario(None,lbA,[(OWN,OWN)],dirsA,1700000000,repeat=1) if False else (lbA,dirsA)
         args=self.install(run,lb,caller,dirs)
+        if self.history: run.ghost['dirs'].update(dA); args=(aA,args)
         run.ghost['insp']={gi['name']:gi for gi in ig}
-        return args,{'lb':lb,'caller':caller,'dirs':dirs,'osig':osig,'expired':expired,'present':present,'lsig':lsig,'rules_pass':rules_pass,'insp':ig}
+        return args,{'lb':lb,'caller':caller,'dirs':dirs,'osig':osig,'expired':expired,'present':present,'lsig':lsig,'rules_pass':rules_pass,'insp':ig,'prior':prior}
     def check(self,run,out,g):
         oc=outcome_of(out); rec=self.new_rec(oc)
-        mk=lambda m: conc_scenario(m,g['lb'],g['caller'],g['dirs'],1700000000,repeat=2)
+        def mk(m):
+            sc=conc_scenario(m,g['lb'],g['caller'],g['dirs'],1700000000,repeat=2)
+            if g.get('prior'):
+                first=conc_scenario(m,g['prior'][0],[(1,1)],g['prior'][1],1700000000,repeat=1)
+                return {'kind':'verify_sequence','first':first,'second':sc,'sleep_ms':0}
+            return sc
         if oc=='panic':
             r,m=run.check_sat(z3.BoolVal(True))
             rec['viol']={'kind':'panic','known_key':None,'scenario':mk(m),'predicted':'panic','what':'in_toto_verify panics: '+str(out[1])}; return rec
